@@ -1339,6 +1339,11 @@ class Quantity(metaclass=QuantityMeta):
                         pass
                     else:
                         assert unit_from_sym.qty_cls is not None
+                        if not (cls is Quantity or
+                                cls is unit_from_sym.qty_cls):
+                            raise QuantityError(
+                                f"Given unit '{unit_from_sym}' is not a "
+                                f"'{cls.__name__}' unit.")
                         qty = unit_from_sym.qty_cls(amnt, unit_from_sym)
                         return qty.convert(unit)
         else:
